@@ -750,6 +750,21 @@ theorem unreferenced_session_is_server_session {st : St} (h : Reachable st) (s :
   exact ⟨hc, by simp [Sess.idle, hc]⟩
 
 
+/-- Round R12d, client sessions PROPER (`coap_new_client_session` on the same context, lifetime slice): the call creates
+ONE new session object (ledger `alloc`, owned by the context) and touches nothing of the endpoints' tables — the sessions,
+the peer ⇀ session map (`lookup`, so `peer_session_functional_injective` stays a statement about the sessions born on
+endpoints and the client session is OUTSIDE that map), the holders and the SERVER_SESSION_NEW/DEL event log are unchanged.
+All theorems above are statements over `Reachable`, i.e. over histories that MIX these calls with everything else;
+`teardown_ledger_empty` then says that `coap_free_context` with such sessions still referenced by the application frees
+every one of them exactly once (after fix a610d3d). -/
+theorem own_client_session_outside_peer_map (st : St) (hf : st.freed = false) (k : Nat) :
+    (st.step (.ownClient k)).1.sessions = st.sessions ∧ (st.step (.ownClient k)).1.events = st.events ∧
+    (st.step (.ownClient k)).1.holders = st.holders ∧ (∀ p, (st.step (.ownClient k)).1.lookup p = st.lookup p) ∧
+    (st.step (.ownClient k)).1.ledger = st.ledger ++ [.alloc st.next] ∧
+    (st.step (.ownClient k)).1.ctxObjs = st.ctxObjs ++ [st.next] ∧ (st.step (.ownClient k)).1.nown = st.nown + 1 := by
+  simp [St.step, hf, St.newOwned, St.lookup]
+
+
 /-! ### non-vacuity: concrete histories -/
 
 def pA : Peer := ⟨1, 0, 1⟩
@@ -1012,6 +1027,13 @@ example : let st := st0.run [.rx pA (.obsReg 0 0 0), .callHome pA, .endCallHome 
     (st.holders.map fun x => (st.releaseHolder x).sessions.map (fun s => (s.ref, s.client))) = [[]] := by decide
 example : let st := st0.run [.rx pA .plain, .rx pB (.obsReg 0 0 0), .callHome pB]
     st.sessions.map (fun s => (s.ref, s.client)) = [(0, false), (2, true)] := by decide
+
+/-- client sessions proper mixed with server sessions: no events, outside the tables, freed by the teardown (also when the
+    application still holds them, and next to a server session it still references) -/
+example : let st := st0.run [.rx pA .plain, .ownClient 1, .appRef pA, .ownClient 0, .callHome pB, .rx pB .plain, .ownClient 2]
+    st.events = [.new 8, .new 11] ∧ st.sessions.map (·.sid) = [8, 11] ∧ st.nown = 3 ∧ st.freed = false ∧
+    ledgerOk st.ledger = false ∧ ledgerOk (st.step .freeContext).1.ledger = true ∧
+    (st.step .freeContext).1.events = [.new 8, .new 11, .del 8, .del 11] := by decide
 
 /-- the monitor rejects a double free, a free of something unallocated and a leak -/
 example : ledgerOk [.alloc 1, .free 1, .free 1] = false ∧ ledgerOk [.free 7] = false ∧ ledgerOk [.alloc 1] = false ∧
